@@ -54,6 +54,11 @@ def top_level_index(fi: FuncInfo, node: ast.AST) -> int:
     return -1
 
 
+def C_dotted(e):
+    from .canon import dotted
+    return dotted(e)
+
+
 class WrapperModel:
     def __init__(self, repo: Repo):
         self.repo = repo
@@ -103,6 +108,17 @@ class WrapperModel:
                             t = self.repo.resolve_symbol(g.module, a.id)
                             if t and not isinstance(a.ctx, ast.Store):
                                 self.fparams.setdefault(tgt.qual, {}).setdefault(pn, []).append((t, set()))
+                    elif isinstance(a, ast.Call) and (C_dotted(a.func) or '').split('.')[-1] == 'partial' and a.args \
+                            and isinstance(a.args[0], ast.Name):
+                        # the partial application written in place
+                        t = self.repo.resolve_symbol(g.module, a.args[0].id)
+                        if t:
+                            self.fparams.setdefault(tgt.qual, {}).setdefault(pn, []).append((t, {k.arg for k in a.keywords if k.arg}))
+                    elif isinstance(a, ast.Lambda) and isinstance(a.body, ast.Call) and isinstance(a.body.func, ast.Name):
+                        # `lambda a, b: f(a, b, key=value)`
+                        t = self.repo.resolve_symbol(g.module, a.body.func.id)
+                        if t:
+                            self.fparams.setdefault(tgt.qual, {}).setdefault(pn, []).append((t, {k.arg for k in a.body.keywords if k.arg}))
 
     def enclosing(self, fi: FuncInfo) -> FuncInfo:
         if '.' in fi.name and not fi.cls:
